@@ -466,17 +466,23 @@ def size_partitions(st, thorough=False, max_reads=24):
     b = data(st)
     n = len(b)
     B, E = big_element(st)
-    pos = {B, B + 1, E - 1, E - 2, E, E - len(b[:E].rsplit(b"<", 1)[-1]) - 1}
-    ks4 = range(1, 17) if thorough else (1, 2, 3)
+    lean = not thorough and n > 512 * KIB      # quick tier, largest class: every parse attempt costs ~0.5 s
+    pre_close = E - len(b[:E].rsplit(b"<", 1)[-1]) - 1
+    pos = {B + 1, E - 1, pre_close} if lean else {B, B + 1, E - 1, E - 2, E, pre_close}
+    ks4 = range(1, 17) if thorough else (1,) if lean else (1, 2, 3)
     pos |= {B + k * 4096 for k in ks4}
     kmax = (E - B) // 65536
     ks64 = range(1, kmax + 1) if thorough else sorted({1, 2, kmax} & set(range(1, kmax + 1)))
     for k in ks64:
-        for d in (-1, 0, 1):
-            pos |= {B + k * 65536 + d, k * 65536 + d}
-            for start in (0, B):
+        for d in ((-1, 0, 1) if k == 1 or not lean else (1,)):
+            if lean and k == 2:
+                continue
+            pos.add(B + k * 65536 + d)
+            if not lean:
+                pos.add(k * 65536 + d)
+            for start in ((B,) if lean else (0, B)):
                 o = _units_offset(b, start, k * 65536 + d)
-                if o is not None:
+                if o is not None and (not lean or d >= 0):
                     pos.add(o)
     jobs = [{"cuts": [p], "src": "size2"} for p in sorted(pos) if 0 < p < n]
     for sz in (4096, 16384, 65535, 65536, 65537):
